@@ -59,6 +59,12 @@ type Decl struct {
 	NoDigest bool   `json:"no_digest,omitempty"` // size-small / size-large without a digest
 	NoSize   bool   `json:"no_size,omitempty"`   // wrong-digest without a size
 	Wrong    int    `json:"wrong,omitempty"`     // wrong-digest flavour: 0 one byte flipped, 1 prefix, 2 one byte appended, 3 digest of the empty blob
+	// SizeOfOther: wrong-digest declares the length of the content its digest names (so digest and size agree with
+	// each other and both disagree with a stream of another length) instead of the stream's length
+	SizeOfOther bool `json:"size_of_other,omitempty"`
+	// Data: the descriptor's inline data field: "" none | named: the content the declared digest names (consistent with
+	// the declared digest and size) | stream: the stream's bytes | wrong-bytes / wrong-length: inconsistent with the declaration
+	Data string `json:"data,omitempty"`
 }
 
 // Feat is the generated registry behaviour (all within the distribution spec).
@@ -269,6 +275,7 @@ type putFacts struct {
 	srcFails   bool
 	trueDig    string
 	fullDig    string
+	named      []byte // the content the declared digest names (the blob itself unless the digest is wrong)
 	declDig    string // "" = none
 	declSize   int64  // 0 = unknown
 	contra     bool   // the declaration contradicts the stream
@@ -426,7 +433,11 @@ func derivePut(c Case, cf *caseFacts, seed uint64, length int, readErrAt int) pu
 			other = append(append([]byte{}, f.full...), 0x00)
 		}
 		f.declDig = rm.Digest(cf.algo, other)
-		if !d.NoSize {
+		f.named = other
+		switch {
+		case d.SizeOfOther:
+			f.declSize = int64(len(other))
+		case !d.NoSize:
 			f.declSize = n
 		}
 	case "size-small", "size-large":
@@ -445,6 +456,9 @@ func derivePut(c Case, cf *caseFacts, seed uint64, length int, readErrAt int) pu
 	default: // absent
 		f.kind = "absent"
 	}
+	if f.named == nil && f.kind != "wrong-digest" {
+		f.named = f.full
+	}
 	f.contraDig = f.declDig != "" && f.declDig != f.trueDig
 	f.contraSize = f.declSize > 0 && f.declSize != int64(len(f.data))
 	f.contra = f.contraDig || f.contraSize
@@ -458,8 +472,23 @@ func derivePut(c Case, cf *caseFacts, seed uint64, length int, readErrAt int) pu
 	return f
 }
 
-func (f *putFacts) descriptor(algo string, extra bool) descriptor.Descriptor {
+func (f *putFacts) descriptor(algo string, extra bool, dataKind string) descriptor.Descriptor {
 	d := descriptor.Descriptor{Size: f.declSize}
+	switch dataKind {
+	case "named":
+		d.Data = append([]byte{}, f.named...)
+	case "stream":
+		d.Data = append([]byte{}, f.full...)
+	case "wrong-bytes":
+		d.Data = append([]byte{}, f.named...)
+		if len(d.Data) > 0 {
+			d.Data[len(d.Data)/2] ^= 0x40
+		} else {
+			d.Data = []byte{0x01}
+		}
+	case "wrong-length":
+		d.Data = append(append([]byte{}, f.named...), 0x7f)
+	}
 	if f.declDig != "" {
 		d.Digest = digest.Digest(f.declDig)
 	} else if algo == "sha512" {
@@ -1078,7 +1107,7 @@ func (e *env) onePut(idx int, seed uint64, length int, ev *evid.Collector) putOu
 	case c.Seekable:
 		rdr = seekSource{src}
 	}
-	d := f.descriptor(cf.algo, c.DescExtra)
+	d := f.descriptor(cf.algo, c.DescExtra, c.Declared.Data)
 
 	// pre-state
 	// the shortcut "anonymous mount of an existing blob" trusts the declared descriptor without reading the
@@ -1145,6 +1174,12 @@ func (e *env) onePut(idx int, seed uint64, length int, ev *evid.Collector) putOu
 	}
 	if f.contra {
 		cl = append(cl, "decl-contradicts")
+	}
+	if c.Declared.Data != "" {
+		cl = append(cl, "desc-data:"+c.Declared.Data)
+		if c.Declared.Data == "named" && f.contra && f.declSize == int64(len(f.named)) && len(f.named) > 0 {
+			cl = append(cl, "desc-data:consistent-but-stream-differs")
+		}
 	}
 	if f.srcFails {
 		cl = append(cl, "src:fails-mid-stream")
